@@ -44,10 +44,10 @@ OBJ = -1   # stands for `object` in pure-function rows
 
 # tier -> program levels (n, max bases, reads) and pure-function bound (n, max bases)
 BOUNDS = {
-    "quick": {"programs": [(1, 3, "all"), (2, 3, "all"), (3, 3, "all"), (4, 3, "all")],
+    "quick": {"programs": [(1, 3, "all"), (2, 3, "all"), (3, 3, "all"), (4, 3, "all"), (3, 2, "all", "obj")],
               "pure": (5, 3)},
     "thorough": {"programs": [(1, 3, "all"), (2, 3, "all"), (3, 3, "all"), (4, 3, "all"),
-                              (5, 3, "all"), (6, 2, "last")],
+                              (5, 3, "all"), (6, 2, "last"), (3, 3, "all", "obj"), (4, 2, "all", "obj")],
                  "pure": (6, 3)},
 }
 
@@ -57,10 +57,22 @@ TYPE_OF = {"int": "1", "str": "''", "float": "1.5"}
 # ---------------------------------------------------------------- the space
 
 
-def base_tuples(i, maxb):
-  """Every ordered tuple of <= maxb bases among classes 0..i-1 (repeats allowed)."""
+def base_tuples(i, maxb, obj=False):
+  """Every ordered tuple of <= maxb bases among classes 0..i-1 (repeats allowed).
+
+  obj=True adds an explicitly written `object` (OBJ) to the alphabet of bases.
+  """
+  alphabet = list(range(i)) + ([OBJ] if obj else [])
   for k in range(maxb + 1):
-    yield from itertools.product(range(i), repeat=k)
+    yield from itertools.product(alphabet, repeat=k)
+
+
+def _bn(b):
+  return "object" if b == OBJ else "C%d" % b
+
+
+def _bc(classes, b):
+  return object if b == OBJ else classes[b]
 
 
 def cpython_classes(hier):
@@ -73,7 +85,7 @@ def cpython_classes(hier):
   classes, mros = [], []
   for i, t in enumerate(hier):
     try:
-      c = type("C%d" % i, tuple(classes[b] for b in t), {})
+      c = type("C%d" % i, tuple(_bc(classes, b) for b in t), {})
     except TypeError as e:
       return mros, (i, str(e))
     classes.append(c)
@@ -82,18 +94,18 @@ def cpython_classes(hier):
   return mros, None
 
 
-def hierarchies(n, maxb):
+def hierarchies(n, maxb, obj=False):
   """All hierarchies of exactly n classes: legal (n-1)-prefix + any n-th class."""
   out = []
 
   def rec(hier, classes):
     i = len(hier)
-    for t in base_tuples(i, maxb):
+    for t in base_tuples(i, maxb, obj):
       if i == n - 1:
         out.append(hier + (t,))
         continue
       try:
-        c = type("C%d" % i, tuple(classes[b] for b in t), {})
+        c = type("C%d" % i, tuple(_bc(classes, b) for b in t), {})
       except TypeError:
         continue
       classes.append(c)
@@ -147,7 +159,7 @@ def as_tuple(hier):
 
 
 def show(hier):
-  return "; ".join("class C%d(%s)" % (i, ", ".join("C%d" % b for b in t)) if t else "class C%d" % i
+  return "; ".join("class C%d(%s)" % (i, ", ".join(_bn(b) for b in t)) if t else "class C%d" % i
                    for i, t in enumerate(hier))
 
 
@@ -208,7 +220,7 @@ class Program:
     self.reads = []      # (line, var, k, attr, via)
     line = 1
     for i, t in enumerate(hier):
-      head = "class C%d(%s):" % (i, ", ".join("C%d" % b for b in t)) if t else "class C%d:" % i
+      head = "class C%d(%s):" % (i, ", ".join(_bn(b) for b in t)) if t else "class C%d:" % i
       body = ["  %s = %s" % (a, TYPE_OF[ty]) for a, ty in attrs_of(i, n)]
       text = "\n".join([head] + body)
       self.class_line[i] = line
@@ -250,7 +262,7 @@ def stub_text(hier):
   n = len(hier)
   out = []
   for i, t in enumerate(hier):
-    out.append("class C%d(%s):" % (i, ", ".join("C%d" % b for b in t)) if t else "class C%d:" % i)
+    out.append("class C%d(%s):" % (i, ", ".join(_bn(b) for b in t)) if t else "class C%d:" % i)
     out += ["    %s: %s" % (a, ty) for a, ty in attrs_of(i, n)]
   return "\n".join(out) + "\n"
 
@@ -270,7 +282,7 @@ def reader_text(hier, mod, refused, reads):
 
 
 def mod_name(hier):
-  return "h" + "_".join("".join(str(b) for b in t) or "o" for t in hier)
+  return "h" + "_".join("".join("x" if b == OBJ else str(b) for b in t) or "o" for t in hier)
 
 
 # ---------------------------------------------------------------- comparing one analysis
@@ -515,7 +527,7 @@ def work_pure(item):
     for t in base_tuples(i, maxb):
       h2 = hier + (t,)
       try:
-        c = type("C%d" % i, tuple(classes[b] for b in t), {})
+        c = type("C%d" % i, tuple(_bc(classes, b) for b in t), {})
         index = {k: j for j, k in enumerate(classes)}
         index[c] = i
         want = [index[k] for k in c.__mro__ if k is not object] + [OBJ]
@@ -551,7 +563,7 @@ def work_pure(item):
 
   classes, mros = [], []
   for i, t in enumerate(prefix):
-    c = type("C%d" % i, tuple(classes[b] for b in t), {})
+    c = type("C%d" % i, tuple(_bc(classes, b) for b in t), {})
     classes.append(c)
     index = {k: j for j, k in enumerate(classes)}
     mros.append([index[k] for k in c.__mro__ if k is not object])
@@ -590,9 +602,13 @@ def run(rep, tier, seed):
   boot.load()
   items = []
   per_level = {}
-  for n, maxb, reads in bounds["programs"]:
-    hs = hierarchies(n, maxb)
-    per_level["n=%d,bases<=%d,reads=%s" % (n, maxb, reads)] = len(hs)
+  seen_h = set()
+  for level in bounds["programs"]:
+    n, maxb, reads = level[:3]
+    obj = len(level) > 3
+    hs = [h for h in hierarchies(n, maxb, obj) if h not in seen_h]
+    seen_h.update(hs)
+    per_level["n=%d,bases<=%d,reads=%s%s" % (n, maxb, reads, ",explicit-object-base" if obj else "")] = len(hs)
     items += [(h, reads) for h in hs]
 
   # one loader per worker process, created (with builtins/typing parsed) before the pool forks; a worker is
@@ -689,7 +705,7 @@ def run(rep, tier, seed):
       "bounds": "tier=%s: programs %s (n classes, <=B bases each, every legal (n-1)-prefix x every n-th class; "
                 "reads=all: every class read, reads=last: only the new last class read, the prefix classes having "
                 "been read as the last class of their own program); MROMerge route n<=%d, <=%d bases"
-                % (tier, ["n=%d,B=%d,%s" % b for b in bounds["programs"]], pn, pmaxb),
+                % (tier, ["n=%d,B=%d,%s" % b[:3] + (",explicit-object" if len(b) > 3 else "") for b in bounds["programs"]], pn, pmaxb),
   })
   rep.rule = ("class i picks every ordered tuple of <=B bases among classes 0..i-1 (repeats allowed); every legal prefix "
               "is extended by every possible next class; each hierarchy is analysed as a source program, as a stub "
